@@ -103,7 +103,7 @@ pub fn gen_history(r: &mut Rng, max_steps: usize, with_faults: bool) -> History 
             steps.push(Step::Delete { side, path });
         } else if with_faults && k < 64 {
             steps.push(Step::BisyncFault {
-                kind: r.below(4) as u8,
+                kind: r.below(6) as u8,
                 nth: r.range(1, 6) as u32,
             });
         } else {
@@ -228,9 +228,11 @@ pub fn apply_user_step(w: &mut World, step: &Step, h: &History, clock_skew: u64)
             // "forall assignments of mtimes": most edits carry the current time, some are
             // backdated (cp -p / tar x / touch -d) or carry the same mtime as before
             let pick = crate::gen::fnv(&[h.seed, clock_skew, crate::gen::fnv_bytes(p.as_bytes()), u64::from(*c), w.clock_ns / 1_000_000_000 % 7]);
-            let t = match pick % 5 {
+            let t = match pick % 6 {
                 0 => 978_307_200_000_000_000 + (pick % 1000) * 1_000_000_000, // year 2001
                 1 => 1_700_000_000_000_000_000,                               // the world's start time
+                // ahead of the clock (skewed peer, restored backup, touch -d '+3 days')
+                2 => w.clock_ns + (1 + pick % 400) * 3_600_000_000_000,
                 _ => w.clock_ns,
             };
             let fs = w.host(HOST);
